@@ -628,7 +628,11 @@ theorem loc_ids_nodup {c : Case} {g : Nat → Fam} {fl : Flags} (t : Table) (f :
     (h : RibInv c g fl f (t.rib f)) : ((famObs c t f).loc.map (·.destId)).Nodup := by
   simp only [famObs]
   refine ((sortOn_perm _ _).map _).nodup_iff.mpr ?_
-  rw [List.map_map, Rbgp.Rib.collect_eq]
+  rw [List.map_map]
+  cases hx : (t.rib f).deferring with
+  | true => rw [collect_deferring hx]; exact List.nodup_nil
+  | false =>
+  rw [collect_not_deferring hx, Rbgp.Rib.collect_eq]
   have : (((t.rib f).dests.filterMap (collectOf f none)).map
       ((fun l : LocObs => l.destId) ∘ fun (ch : Change) =>
         ({ net := ch.net, destId := packId c.shard ch.destId, ecmp := ecmpIds t.flags ch.net.t2 ch.paths,
@@ -665,7 +669,7 @@ theorem checkFam_ok {c : Case} {g : Nat → Fam} {t : Table} {st : St} (hrel : R
   have hloc : ∀ n i, t.destId f n = some i → t.elig f n ≠ [] →
       ∃ l ∈ (famObs c t f).loc, l.destId = packId c.shard i := by
     intro n i hi hne
-    have := famObs_loc_find (c := c) t f hR n
+    have := famObs_loc_find (c := c) t f hR hd' n
     rw [isEmpty_false_of_ne hne, hi] at this
     simp only [Bool.false_eq_true, if_false, Option.map_some] at this
     refine ⟨_, List.mem_of_find?_eq_some this, rfl⟩
@@ -725,10 +729,10 @@ def out0 (st : St) (op : Op) : List Fam :=
   | .endDeferral f => if st.outside.contains f then st.outside.erase f else st.outside
   | _ => st.outside
 
-def out2 (op : Op) (st : St) (fams : List FamObs) : List Fam :=
+def out2 (op : Op) (st : St) : List Fam :=
   match op with
   | .startDeferral f =>
-      if hasFam st.full f || !(famLoc fams f).isEmpty then f :: (out0 st op).erase f else out0 st op
+      if hasFam st.full f then f :: (out0 st op).erase f else out0 st op
   | _ => out0 st op
 
 def endOk (op : Op) (s : StepObs) : Option String :=
@@ -744,7 +748,7 @@ def st2Of (c : Case) (st : St) (op : Op) (s : StepObs) : St :=
     bestOnly := ((changesOf s.res).filter (·.best)).foldl apply (view0 st op st.bestOnly)
     addPath := ((changesOf s.res).filter (·.any)).foldl apply (view0 st op st.addPath)
     deferring := defr2 op st.deferring
-    outside := out2 op st s.fams
+    outside := out2 op st
     ref := SpecRef.refStep c st.ref op s.res }
 
 theorem checkStep_eq (c : Case) (st : St) (op : Op) (s : StepObs) :
@@ -803,7 +807,7 @@ theorem nodup_defr2 (op : Op) {l : List Fam} (hn : l.Nodup) : (defr2 op l).Nodup
   | endDeferral f0 => exact hn.erase f0
   | _ => exact hn
 
-theorem nodup_out2 (op : Op) (st : St) (fams : List FamObs) (hn : st.outside.Nodup) : (out2 op st fams).Nodup := by
+theorem nodup_out2 (op : Op) (st : St) (hn : st.outside.Nodup) : (out2 op st).Nodup := by
   cases op with
   | startDeferral f0 =>
     simp only [out2, out0]
@@ -822,16 +826,16 @@ theorem nodup_out2 (op : Op) (st : St) (fams : List FamObs) (hn : st.outside.Nod
 
 /-- a family that is judged after the step: either it was judged before (and, if the step starts
     its deferral, it starts from an empty state), or the step is the end of its unjudged deferral -/
-theorem not_mem_out2 {op : Op} {st : St} {fams : List FamObs} {f : Fam} (_hn : st.outside.Nodup)
-    (h : f ∉ out2 op st fams) :
-    (f ∉ st.outside ∧ (op.isStartDeferral f = true → hasFam st.full f = false ∧ (famLoc fams f).isEmpty = true)) ∨
+theorem not_mem_out2 {op : Op} {st : St} {f : Fam} (_hn : st.outside.Nodup)
+    (h : f ∉ out2 op st) :
+    (f ∉ st.outside ∧ (op.isStartDeferral f = true → hasFam st.full f = false)) ∨
     (f ∈ st.outside ∧ op.isEndDeferral f = true) := by
   cases op with
   | startDeferral f0 =>
     left
     simp only [out2, out0] at h
     simp only [Op.isStartDeferral, fam_beq]
-    by_cases hc : (hasFam st.full f0 || !(famLoc fams f0).isEmpty) = true
+    by_cases hc : hasFam st.full f0 = true
     · rw [if_pos hc] at h
       simp only [List.mem_cons, not_or] at h
       refine ⟨?_, fun e => absurd e.symm h.1⟩
@@ -840,8 +844,7 @@ theorem not_mem_out2 {op : Op} {st : St} {fams : List FamObs} {f : Fam} (_hn : s
     · rw [if_neg hc] at h
       refine ⟨h, fun e => ?_⟩
       subst e
-      simp only [Bool.or_eq_true, Bool.not_eq_true', not_or, Bool.not_eq_true, Bool.not_eq_false] at hc
-      exact hc
+      simpa using hc
   | endDeferral f0 =>
     simp only [out2, out0] at h
     by_cases hf : f ∈ st.outside
@@ -894,14 +897,15 @@ theorem end_not_start {op : Op} {f : Fam} (h : op.isEndDeferral f = true) : op.i
 theorem famLoc_obs (c : Case) (t : Table) (f : Fam) : famLoc (allFams.map (famObs c t)) f = (famObs c t f).loc := by
   cases f <;> simp [famLoc, allFams, famObs_fam]
 
-theorem elig_nil_of_loc_nil {c : Case} {g : Nat → Fam} {t : Table} {f : Fam}
-    (hR : RibInv c g t.flags f (t.rib f)) (h : (famObs c t f).loc = []) (n : Net) : t.elig f n = [] := by
-  apply Classical.byContradiction
-  intro hne
-  have := famObs_loc_find (c := c) t f hR n
-  obtain ⟨i, hi⟩ := destId_some_of_elig hne
-  rw [isEmpty_false_of_ne hne, hi, h] at this
-  simp at this
+/-- the start of a deferral announces nothing -/
+theorem chs_nil_of_start {p : Profile} {t t' : Table} {op : Op} {r : Res} {f : Fam}
+    (h : op.isStartDeferral f = true) (hstep : t.step p op = .ok (t', r)) : r.chs = [] := by
+  cases op with
+  | startDeferral f0 =>
+    simp only [Table.step] at hstep
+    cases hstep
+    rfl
+  | _ => simp [Op.isStartDeferral] at h
 
 theorem hasFam_false {m : View} {f : Fam} (h : hasFam m f = false) (k : Nat) : vGet (f, k) m = none := by
   cases hv : vGet (f, k) m with
@@ -951,7 +955,7 @@ theorem step_rel (hR : RefSound) {c : Case} {g : Nat → Fam} {p : Profile} {t t
   have hcons := step_consistent hinv hinv' hf hE hX hp
   have hattr' := attrRef_step hrel.attr hopA hE
   obtain ⟨href, hchk⟩ := hR c g p t op t' r st.ref hop hinv hinv' hstep hE hX hrel.attr hattr' hrel.ref
-  refine ⟨⟨?_, nodup_defr2 op hrel.defNodup, nodup_out2 op st _ hrel.outNodup,
+  refine ⟨⟨?_, nodup_defr2 op hrel.defNodup, nodup_out2 op st hrel.outNodup,
     wf_foldl _ (wf_view0 st op hrel.wfFull), wf_foldl _ (wf_view0 st op hrel.wfBest),
     wf_foldl _ (wf_view0 st op hrel.wfAdd), ?_, href, hattr'⟩, hchk⟩
   · intro f
@@ -1037,11 +1041,7 @@ theorem step_rel (hR : RefSound) {c : Case} {g : Nat → Fam} {p : Profile} {t t
             have hst : op.isStartDeferral f = true := by
               rw [hd', hd0] at hdef
               cases h1 : op.isStartDeferral f <;> cases h2 : op.isEndDeferral f <;> simp [h1, h2] at hdef ⊢
-            obtain ⟨hh, hl⟩ := hstart hst
-            have hl' : (famObs c t' f).loc = [] := by
-              have : famLoc (stepObs c op (t', r)).fams f = (famObs c t' f).loc := famLoc_obs c t' f
-              rw [this] at hl
-              exact List.isEmpty_iff.mp hl
+            have hh := hstart hst
             constructor
             · intro n
               apply Classical.byContradiction
@@ -1051,8 +1051,8 @@ theorem step_rel (hR : RefSound) {c : Case} {g : Nat → Fam} {p : Profile} {t t
               rw [hasFam_false hh] at hv
               exact absurd hv (by simp)
             · intro ch hch hcf
-              rw [hf.exact ch hch, hcf]
-              exact elig_nil_of_loc_nil (hinv'.rib f) hl' _
+              rw [chs_nil_of_start hst hstep] at hch
+              exact absurd hch List.not_mem_nil
         rw [hE']
         refine FR0.step hp hcons ?_ hid hstab hinj' hown hED (fun n h => absurd rfl h) ?_ ?_
         · intro ch hch hcf; exact hpre.2 ch hch hcf
